@@ -24,7 +24,8 @@ func init() {
 			"(4b) aeadForTerm probes and fills the cache under, and builds the AEAD from the key of, its term parameter; Initialize persists the first keyring only behind Initialized() == false; " +
 			"(5b) Core side of the upgrade path: CreateUpgrade/DestroyUpgrade receive the term Rotate returned, behind Rotate's success; checkKeyringUpgrade calls CheckUpgrade again after every installed term; performKeyUpgrades runs checkKeyringUpgrade, ReloadRootKey, ReloadKeyring, reloadShamirKey in this order, each after the previous succeeded; CreateUpgrade serializes and encrypts TermKey(term) of the live keyring for its own term parameter; " +
 			"(2c) Core.sealInternalWithOptions: after the core was marked sealed every return lies behind SealManager.sealAll, except the two tabled error legs (preSeal / raft TeardownCluster failed) whose callees cannot fail on the pinned tree; " +
-			"(6b) the sibling rotations have no atomic envelope either (further instances of F6).",
+			"(6b) the sibling rotations have no atomic envelope either (further instances of F6); " +
+			"(2d) shared with C01.7: a superseded keyring is zeroised only where the keyring made live came out of Keyring.SetRootKey (own copy of the root key), never after a swap to a clone (AddKey) that shares the root-key slice.",
 		NotDecided: "readability of old entries after arbitrary rotate/rekey histories (values/keys); crash at an arbitrary write prefix beyond listing the non-atomic sequences; lock discipline of b.l (conditional locking); namespace barriers' sealing order.",
 		Run:        runC10,
 	})
